@@ -87,6 +87,33 @@ var ops = []op{
 		return strings.Join(rec.Methods, ",")
 	}},
 	{"resolve", func(r ast.Vertex) string { return resolvedString(r, px.Resolve(r)) }},
+	// the same observers applied to a sub-tree (the first / last top-level statement): a visitor
+	// started below the root must not touch the rest of the tree either
+	{"print-first-stmt", func(r ast.Vertex) string { return string(px.Print(stmtOf(r, 0))) }},
+	{"print-last-stmt", func(r ast.Vertex) string { return string(px.Print(stmtOf(r, -1))) }},
+	{"dump-last-stmt+tokens+positions", func(r ast.Vertex) string { return string(px.Dump(stmtOf(r, -1), true, true)) }},
+	{"resolve-last-stmt", func(r ast.Vertex) string { n := stmtOf(r, -1); return resolvedString(n, px.Resolve(n)) }},
+}
+
+// stmtOf returns the i-th top-level statement (negative: from the end), or the root itself.
+func stmtOf(r ast.Vertex, i int) ast.Vertex {
+	root, ok := r.(*ast.Root)
+	if !ok || len(root.Stmts) == 0 {
+		return r
+	}
+	if i < 0 {
+		i += len(root.Stmts)
+	}
+	return root.Stmts[i]
+}
+
+func opByName(name string) *op {
+	for i := range ops {
+		if ops[i].name == name {
+			return &ops[i]
+		}
+	}
+	return nil
 }
 
 func runHistory(rt *rapid.T, src []byte, v px.Ver, class string) {
@@ -108,7 +135,7 @@ func runHistory(rt *rapid.T, src []byte, v px.Ver, class string) {
 		}
 		ref[o.name] = out
 	}
-	n := rapid.IntRange(1, 12).Draw(rt, "steps")
+	n := rapid.IntRange(1, 16).Draw(rt, "steps")
 	hist := ""
 	used := map[string]int{}
 	for i := 0; i < n; i++ {
@@ -117,18 +144,18 @@ func runHistory(rt *rapid.T, src []byte, v px.Ver, class string) {
 		used[o.name]++
 		var out string
 		if p := px.Guard(func() { out = o.run(tree) }); p != "" {
-			harness.Fail(rt, "observer-panic", src, map[string]string{"version": v.String(), "history": hist}, "[%s] after history%s: %s panicked: %s", v, hist, o.name, p)
+			harness.Fail(rt, "observer-panic", keep, map[string]string{"version": v.String(), "history": hist}, "[%s] after history%s: %s panicked: %s", v, hist, o.name, p)
 		}
 		harness.Eval()
 		mt := map[string]string{"version": v.String(), "history": hist}
 		if out != ref[o.name] {
-			harness.Fail(rt, "output-changed", src, mt, "[%s] after history%s the output of %s differs from its output on a freshly parsed tree\nsource: %q", v, hist, o.name, trunc(src, 300))
+			harness.Fail(rt, "output-changed", keep, mt, "[%s] after history%s the output of %s differs from its output on a freshly parsed tree\nsource: %q", v, hist, o.name, trunc(keep, 300))
 		}
 		if fp := astx.Fingerprint(tree); fp != freshFP {
-			harness.Fail(rt, "tree-modified", src, mt, "[%s] history%s modified the tree (first differing line: %s)\nsource: %q", v, hist, firstDiffLine(freshFP, fp), trunc(src, 300))
+			harness.Fail(rt, "tree-modified", keep, mt, "[%s] history%s modified the tree (first differing line: %s)\nsource: %q", v, hist, firstDiffLine(freshFP, fp), trunc(src, 300))
 		}
 		if cf := capFingerprint(tree); cf != freshCap {
-			harness.Fail(rt, "slice-modified", src, mt, "[%s] history%s changed the length or capacity of a list in the tree\nsource: %q", v, hist, trunc(src, 300))
+			harness.Fail(rt, "slice-modified", keep, mt, "[%s] history%s changed the length or capacity of a list in the tree\nsource: %q", v, hist, trunc(src, 300))
 		}
 		if !bytes.Equal(src, keep) {
 			harness.Fail(rt, "source-modified", keep, mt, "[%s] history%s wrote into the source buffer (token values alias it): now %q", v, hist, trunc(src, 300))
@@ -262,9 +289,64 @@ func TestTreesAreIndependent(t *testing.T) {
 	})
 }
 
+// TestReplay re-executes a recorded history: the replay file holds the source, the version and the
+// operation names (meta.history); the oracle is the same as in the generated runs.
 func TestReplay(t *testing.T) {
-	if harness.ReplayPath() == "" {
+	path := harness.ReplayPath()
+	if path == "" {
 		t.Skip("no VERIF_REPLAY")
 	}
-	t.Skip("histories replay through the rapid seed recorded in the replay file (meta.history lists the operations)")
+	vi, src, err := harness.LoadReplay(path)
+	if err != nil {
+		t.Fatal(err)
+	}
+	var v px.Ver
+	fmt.Sscanf(vi.Meta["version"], "%d.%d", &v.Major, &v.Minor)
+	names := strings.Fields(vi.Meta["history"])
+	if len(names) == 0 {
+		names = []string{"print", "dump+tokens+positions", "traverse", "resolve", "print"}
+	}
+	if clause, msg := execHistory(src, v, names); clause != "" {
+		harness.Failf(t, clause, src, vi.Meta, "%s", msg)
+	}
+}
+
+// execHistory applies the named operations to one parsed tree and checks every clause after each
+// step (plain function: no rapid, used by the replay).
+func execHistory(src []byte, v px.Ver, names []string) (string, string) {
+	keep := append([]byte{}, src...)
+	first := px.Parse(src, v, true)
+	if first.Panic != "" || astx.IsNil(first.Root) {
+		return "", ""
+	}
+	tree := first.Root
+	freshFP, freshCap := astx.Fingerprint(tree), capFingerprint(tree)
+	hist := ""
+	for _, nm := range names {
+		o := opByName(nm)
+		if o == nil {
+			continue
+		}
+		f := px.Parse(append([]byte{}, keep...), v, true)
+		var want, out string
+		if p := px.Guard(func() { want = o.run(f.Root) }); p != "" {
+			return "", ""
+		}
+		hist += " " + nm
+		if p := px.Guard(func() { out = o.run(tree) }); p != "" {
+			return "observer-panic", fmt.Sprintf("[%s] after history%s: %s panicked: %s", v, hist, nm, p)
+		}
+		harness.Eval()
+		switch {
+		case out != want:
+			return "output-changed", fmt.Sprintf("[%s] after history%s the output of %s differs from its output on a freshly parsed tree", v, hist, nm)
+		case astx.Fingerprint(tree) != freshFP:
+			return "tree-modified", fmt.Sprintf("[%s] history%s modified the tree (first differing line: %s)", v, hist, firstDiffLine(freshFP, astx.Fingerprint(tree)))
+		case capFingerprint(tree) != freshCap:
+			return "slice-modified", fmt.Sprintf("[%s] history%s changed the length or capacity of a list in the tree", v, hist)
+		case !bytes.Equal(src, keep):
+			return "source-modified", fmt.Sprintf("[%s] history%s wrote into the source buffer: now %q", v, hist, trunc(src, 300))
+		}
+	}
+	return "", ""
 }
